@@ -316,6 +316,12 @@ def currently_exiting_context(frame: types.FrameType) -> Optional[ExitingContext
                 offs -= 2
     else:  # 3.11 and later
         # Async calls have lasti pointing at YIELD_VALUE or SEND
+        # (or, when running on 3.12+, at the inline cache entry after SEND)
+        while code[offs] == op["CACHE"] and offs >= 2 and code[offs - 2] in (
+            op["SEND"],
+            op["CACHE"],
+        ):
+            offs -= 2
         if code[offs] == op["YIELD_VALUE"] and offs >= 2:
             offs -= 2
             # SEND can have a CACHE after it in 3.12
